@@ -389,7 +389,7 @@ func Load(db *sql.DB) (*Tables, error) {
 	}
 	rows.Close()
 
-	rows, err = tx.Query(`SELECT resource_id, execution_id, process_id, ttl, expires_at FROM locks`)
+	rows, err = tx.Query(`SELECT resource_id, execution_id, process_id, ttl, CAST(expires_at AS INTEGER) FROM locks`)
 	if err != nil {
 		return nil, err
 	}
@@ -406,7 +406,7 @@ func Load(db *sql.DB) (*Tables, error) {
 	}
 	rows.Close()
 
-	rows, err = tx.Query(`SELECT id, sort_id, process_id, state, root_promise_id, recv, mesg, timeout, counter, attempt, ttl, expires_at, created_on, completed_on FROM tasks`)
+	rows, err = tx.Query(`SELECT id, sort_id, process_id, state, root_promise_id, recv, mesg, timeout, counter, attempt, ttl, CAST(expires_at AS INTEGER), created_on, completed_on FROM tasks`)
 	if err != nil {
 		return nil, err
 	}
